@@ -401,7 +401,7 @@ def subqap(nm):
                 ret = fn(*argscopy, **kwargs)
             finally:
                 (runtime.LinComb.ONE, runtime.LinComb.ONE_SAFE) = oldones
-            continuefn(oldctx)
+                continuefn(oldctx) # also when the body raised: what the caller traces next belongs to the caller
             retcopy = for_each_in(secret, copyandaddrev, ret)
 
             if argret: vc_glue(oldctx, newctx, argret) # no secret argument or result: nothing to tie (an empty block breaks qapsplit)
